@@ -718,6 +718,23 @@ class VRaise(_VFloatOp):
         raise _odd_exception(exc)
 
 
+NESTED: dict = {}       # set by a check: {"orchestrator": shared orchestrator object, "trace": driver for the inner run}
+
+
+class VNestedRun(_VFloatOp):
+    """Runs an INNER pipeline ([VSrcDefault, VMulDefault]) through the SAME orchestrator object that is running the outer
+    pipeline (with its own trace driver) and adds the inner result to the data - a processor that delegates to a sub-pipeline."""
+
+    def _process_logic(self, data, weight: float = 1.0):
+        REC.add("VNestedRun", data, {"weight": weight})
+        from semantiva.pipeline.pipeline import Pipeline
+
+        inner = Pipeline([{"processor": "VSrcDefault"}, {"processor": "VMulDefault"}],
+                         orchestrator=NESTED.get("orchestrator"), trace=NESTED.get("trace"))
+        out = inner.process(Payload(NoDataType(), ContextType({})))
+        return FloatDataType(data.data + weight * out.data.data)
+
+
 class VBoomExit(_VFloatOp):
     """Fault component: calls sys.exit(9) (SystemExit, a BaseException that is neither Exception nor KeyboardInterrupt)
     when fuse >= 1.0, passes data through otherwise - what a wrapped command-line tool does on error."""
